@@ -48,8 +48,23 @@ def float_cases(seed, n):
         b = [r.randrange(0, 1000) / dec, r.randrange(0, 1000) / dec]
         if a == b:
             continue
-        fam = ["exact-on", "rounded-on", "decimal-collinear", "decimal-near", "decimal-collinear", "endpoint", "decimal-collinear", "beyond"][len(out) % 8]
-        if fam == "exact-on":
+        fam = ["exact-on", "rounded-on", "decimal-collinear", "decimal-near", "decimal-collinear", "endpoint", "decimal-collinear", "beyond",
+               "fine-grid-on", "fine-grid-on"][len(out) % 10]
+        if fam == "fine-grid-on":
+            # p EXACTLY on the segment although no coordinate difference is a float64: a of magnitude a few hundred on the
+            # 2^-43 grid, p in [0, 1) on the 2^-(43+j) grid, b = 2^j p - (2^j - 1) a (on the 2^-43 grid again, below 2^10 x 2^j):
+            # p = a + (b - a) / 2^j. A floating-point determinant of such a triple is pure rounding residue.
+            j = r.choice([1, 2, 2, 3])
+            k = 1 << j
+            a = [F(r.randrange(-(300 << 43), 300 << 43), 1 << 43) for _ in range(2)]
+            pq = [F(r.randrange(0, 1 << (43 + j)), 1 << (43 + j)) for _ in range(2)]
+            bq = [k * pq[i] - (k - 1) * a[i] for i in range(2)]
+            if any(F(float(v)) != v for v in a + pq + bq):
+                continue
+            a, b, p = [float(v) for v in a], [float(v) for v in bq], [float(v) for v in pq]
+            if r.random() < 0.25:          # and the same one unit in the last place off the line
+                p[r.randrange(2)] += 2.0 ** -(44 + j)
+        elif fam == "exact-on":
             t = F(r.randrange(1, 16), 16)
             px, py = F(a[0]) + t * (F(b[0]) - F(a[0])), F(a[1]) + t * (F(b[1]) - F(a[1]))
             if F(float(px)) != px or F(float(py)) != py:
@@ -105,6 +120,30 @@ def float_pipe(ctx, verdict, cases, name="online-float"):
 
 
 PIPES["online-float"] = float_pipe
+
+
+def fine_pool(ctx, n_pool, n_keep):
+    """Suspicious-first sampling of the fine-grid family (float_cases, "fine-grid-on"): a large pool is run through the real
+    code; triples built ON the segment for which it answers "not on the line" (and triples built one unit in the last place
+    off it for which it answers "on") go to the model checker first, followed by a few unsuspicious ones. Prioritisation
+    only: OnLine / OnSeg on exact integers (Apalache) is the verdict."""
+    pool = []
+    seed = ctx.seed * 11 + 4
+    while len(pool) < n_pool:
+        pool += [c for c in float_cases(seed, 2000) if c["fam"] == "fine-grid-on"]
+        seed += 1
+    pool = pool[:n_pool]
+    obs = list(vlib.run_driver(ctx, "locate", [dict(ring=c["line"], n=0, qs=[c["p"]]) for c in pool], for_tlc=False))
+    from fractions import Fraction as Fr
+    sus, rest = [], []
+    for c, o in zip(pool, obs):
+        a, b = [[ec.parse_exact(v) for v in q] for q in c["line"][:2]]
+        q = [ec.parse_exact(v) for v in c["p"]]
+        on = (b[0] - a[0]) * (q[1] - a[1]) == (b[1] - a[1]) * (q[0] - a[0])
+        got = o.get("onseg1", [None])[0]
+        (sus if got != on else rest).append(c)
+    ctx.coverage_extra["fine_grid_pool"] = dict(pool=len(pool), answers_that_look_wrong=len(sus), kept=min(n_keep, len(sus)) + min(4, len(rest)))
+    return [dict(c, fam="fine-grid-on/screened") for c in sus[:n_keep]] + rest[:4]
 
 
 def big_cases(seed, n):
@@ -168,7 +207,7 @@ def run(ctx, verdict):
     cases = seeded(ctx.seed, 1500 if ctx.quick else 20000)
     vlib.note_cases(ctx, cases, nontrivial=lambda c: len({tuple(p) for p in c["ring"]}) >= 3)
     ec.pipe("locate")(ctx, verdict, cases)
-    fcases = float_cases(ctx.seed, 640 if ctx.quick else 8000)
+    fcases = float_cases(ctx.seed, 640 if ctx.quick else 8000) + fine_pool(ctx, 6000 if ctx.quick else 100000, 16 if ctx.quick else 120)
     vlib.note_cases(ctx, fcases)
     float_pipe(ctx, verdict, fcases)
     big = big_cases(ctx.seed, 16 if ctx.quick else 600)
